@@ -251,6 +251,55 @@ def replay_one(payload: Dict[str, Any]) -> int:
     return 1 if r["viol"] else 0
 
 
+def environment_probe(run: core.Run) -> None:
+    """C02 does not quantify over the process environment: with any SEMANTIVA_* variable that inspection or node construction
+    consults (observed: vharness.envprobe) set to a few plausible values, what inspection says still holds at run time --
+    an unknown parameter is reported by both with the same names, an accepted configuration still does not fail on flow."""
+    from .. import envprobe, seams
+    seams.setup()
+    from semantiva.inspection import build_pipeline_inspection, validate_pipeline
+    from ..seams import run_nodes
+
+    cases = [
+        [{"processor": "FloatValueDataSource", "parameters": {"value": 3.0}}, {"processor": "FloatMultiplyOperation", "parameters": {"factor": 2.0, "facto": 5.0}}],
+        [{"processor": "FloatValueDataSource", "parameters": {"value": 3.0}}, {"processor": "FloatMultiplyOperation"}, {"processor": "FloatCollectValueProbe", "context_key": "factor"}],
+        [{"processor": "FloatValueDataSource", "parameters": {"value": 3.0}}, {"processor": "delete:factor"}, {"processor": "FloatMultiplyOperation"}],
+        [{"processor": "FloatValueDataSource", "parameters": {"value": 3.0}}, {"processor": "FloatCollectValueProbe", "context_key": "factor"}, {"processor": "FloatMultiplyOperation"}],
+    ]
+
+    def observe(nodes):
+        insp = build_pipeline_inspection(copy.deepcopy(nodes))
+        errors = []
+        try:
+            validate_pipeline(insp)
+        except Exception as exc:
+            errors.append(str(exc)[:80])
+        reported = sorted({(p.get("name") if isinstance(p, dict) else str(p)) for n in insp.nodes for p in (getattr(n, "invalid_parameters", None) or [])})
+        accepted = not errors and not any(getattr(n, "errors", None) for n in insp.nodes)
+        o = run_nodes(copy.deepcopy(nodes), None, {k: 2.0 for k in insp.required_context_keys})
+        rejected_at_run = bool(o["construct_error"]) or (o["raised"] is not None and o.get("exc_class") == "build")
+        if bool(reported) != rejected_at_run:
+            return f"inspection reports unknown parameters {reported}; the run {'rejects the configuration' if rejected_at_run else 'accepts it: ' + str(o.get('final'))}"
+        if accepted and o["raised"] is not None and o.get("exc_class") in ("resolve", "type", "build"):
+            return f"inspection + validation accept, required keys supplied, the run fails on flow: {o['raised']}"
+        return None
+    import copy
+    for nodes in cases:
+        base = observe(nodes)
+        if base:
+            run.violation("fixed-pipeline", f"{nodes} in the default environment: {base}", {"nodes": nodes})
+            return
+    names = envprobe.discover(lambda: [observe(n) for n in cases])
+    run.extra["environment_variables_consulted"] = names
+    for assign in envprobe.settings(names):
+        with envprobe.with_env(assign):
+            for nodes in cases:
+                run.evaluations += 1
+                bad = observe(nodes)
+                if bad:
+                    run.violation(f"environment:{next(iter(assign))}", f"with {assign} in the process environment, {nodes}: {bad}", {"env": assign, "nodes": nodes})
+
+
 def check(tier: str) -> int:
     run = core.Run("C02", tier)
     run.rule = ("cases = (program, initial context, compatible initial data) emitted by TLC from Inspection.tla; "
@@ -287,4 +336,5 @@ def check(tier: str) -> int:
         _replay(run, "Inspection.feed4.emit", timeout=6000)
         _replay(run, "Inspection.sim.emit", simulate="num=30000", depth=20, seed=seed + 3)
     run.exhaustive = True
+    environment_probe(run)
     return run.finish()
